@@ -8,7 +8,14 @@ and once in a dirty one (stale bytes of an earlier, longer datagram behind it); 
 any offset or declare a Content-Length larger / smaller than what they carry."""
 from .common import *
 
-def fmsg(g, big=False, eol=None, tiny=False):
+def fmsg(g, big=False, eol=None, tiny=False, limit=None):
+    """limit: largest size wanted (a UDP datagram carries at most 65 507 bytes); a larger draw is repeated smaller"""
+    if limit is not None:
+        while True:
+            m = fmsg(g, big, eol, tiny)
+            if len(m) <= limit:
+                return m
+            big = g.chance(0.5)
     eol = eol or g.pick(["\r\n", "\r\n", "\n"])
     req = g.chance(0.6)
     start = "%s sip:%s SIP/2.0" % (g.pick(["INVITE", "OPTIONS", "MESSAGE"]), g.pick(["svc.test", "a@b.example.org"])) if req else "SIP/2.0 %d %s" % (g.pick([100, 200, 404]), g.pick(["OK", "Not Found"]))
@@ -78,7 +85,7 @@ def generate(seed, tier, focus="frame"):
         lines.append("udpwire new %d" % port)
         for i in range(120 if tier == "quick" else 3000):
             k = g.rint(0, 5)
-            m = fmsg(g, big=g.chance(0.3))
+            m = fmsg(g, big=g.chance(0.3), limit=60000)
             exp = None
             if k == 0:
                 d = m[:g.rint(1, len(m) - 1)]
@@ -99,7 +106,7 @@ def generate(seed, tier, focus="frame"):
             g.count("udpwire_kind_%d" % min(k, 3))
     else:
         for i in range(400 if tier == "quick" else 8000):
-            m = fmsg(g, big=g.chance(0.1))
+            m = fmsg(g, big=g.chance(0.1), limit=60000)
             k = g.rint(0, 5)
             stale = g.pick([b"ZZZZZZZZZZZZZZZZZZZZ" * 50, fmsg(g) * 3, b"\r\n\r\nabcdef" * 20, b"\r\nContent-Length: 0\r\n\r\n" + fmsg(g)])
             exp = None
